@@ -39,7 +39,8 @@ func Harness_C18_Render() {
 		if len(line) == 0 {
 			continue
 		}
-		verifAssume(line[0] >= 'a' && line[0] <= 'z')
+		verifAssume(line[0] >= 'a')
+		verifAssume(line[0] <= 'z')
 		sp := -1
 		for k := 0; k < len(line); k++ {
 			if line[k] == ' ' {
